@@ -110,9 +110,10 @@ def run(ctx):
         ctx.event('schema')
         ctx.klass('schema-with-double-reference' if any(
             sum(1 for c in r['comps'] if c == ('ref', x)) >= 2 for r in schema['rules'] for x in {c[1] for c in r['comps'] if c[0] == 'ref'}) else 'schema-plain')
-        names = [[]] + list(lvs.all_names(alphabet, L, 1500 if ctx.quick else 8000, rng))
+        names = [[]] + ref.directed_names(rng, alphabet, 3 if ctx.quick else 8) + list(lvs.all_names(alphabet, L, 1500 if ctx.quick else 8000, rng))
         budget = 4000 * (len(model.nodes) + 1) * (L + 2)
         nfail = 0
+        abandoned, last_match = [], {}
         t_schema = time.time()
         for ni, name in enumerate(names):
             if ni % 64 == 0 and time.time() - t_schema > (20 if ctx.quick else 60):
@@ -120,6 +121,40 @@ def run(ctx):
                 break
             exp = ref.match(name)
             wn = dict(w, name=rc.name_to_uri(name, canonical=True))
+            if exp and ni % 5 == 0:
+                # legal uses of the generator: abandoned after the first result, and two iterations interleaved
+                for label, ck in (('direct', checker), ('loaded', loaded)):
+                    if ck is None:
+                        continue
+                    try:
+                        g1 = ck.match(name)
+                        first = next(g1, None)
+                        abandoned.append(g1)               # kept alive, never resumed
+                        if len(abandoned) > 8:
+                            abandoned.pop(0)
+                        other = last_match.get(label, name)
+                        ga, gb = ck.match(name), ck.match(other)
+                        ra, rb = [], []
+                        while ga is not None or gb is not None:
+                            for g, acc in ((ga, ra), (gb, rb)):
+                                if g is None:
+                                    continue
+                                try:
+                                    rns, c_ = next(g)
+                                    acc.append((tuple(rns), frozenset((k, bytes(v)) for k, v in c_.items())))
+                                except StopIteration:
+                                    if g is ga:
+                                        ga = None
+                                    else:
+                                        gb = None
+                        got_i = {(lvs.STRIP_TMP.sub('', rn), b) for rns, b in ra for rn in rns if not lvs.INTERIOR.match(rn)}
+                        if got_i != exp or first is None:
+                            ctx.report(f'interleaved-match-differs:{label}', f'two match() iterations advanced alternately: match({wn["name"]}) '
+                                       f'yielded {sorted(r for r, _ in got_i)}, text describes {sorted(r for r, _ in exp)}', wn)
+                        ctx.event('interleaved-and-abandoned-iteration')
+                        last_match[label] = name
+                    except Exception as e:   # noqa
+                        ctx.report(f'match-raises:{type(e).__name__}@{raising_site(e)[0]}', f'interleaved match({wn["name"]}) raised {e!r}', wn)
             for label, ck in (('direct', checker), ('loaded', loaded)):
                 if ck is None:
                     continue
@@ -158,5 +193,6 @@ def run(ctx):
     ctx.need_class('schema-with-double-reference')
     ctx.need_event('schema', 40)      # most generated schemas must have compiled, otherwise nothing was decided
     ctx.need_class('template-schema')
+    ctx.need_event('interleaved-and-abandoned-iteration')
     ctx.assumptions = ['interior tree nodes reported as #_<id> are not matches for a rule and are filtered out',
                        'constraints refer only to patterns of the rule itself or of rules it references']
